@@ -465,8 +465,8 @@ Proof.
   { intro j. unfold finishedb. cbn. destruct (Nat.eqb_spec j i); subst; auto. now rewrite Hw. }
   eapply inv2_frame; eauto.
   intros j v t w Hv Ht Hnd Sw. destruct (Nat.eq_dec j i) as [->|Hne]; eauto.
-  exists w. eapply shadow_same; eauto.
-  - unfold cur_prog. cbn. destruct (Nat.eqb_spec j i); congruence.
+  exists w. apply (shadow_same g (set_work g i (WRun p')) j t w); auto.
+  - unfold cur_prog. cbn. destruct (Nat.eqb_spec j i); [contradiction|reflexivity].
   - intro a. apply active_set_work. apply Hs.
 Qed.
 
